@@ -421,7 +421,7 @@ var baseAssumptions = []string{
 
 func levelOf(prop string) string {
 	switch prop {
-	case "C10", "C11", "C12":
+	case "C10", "C11", "C12", "C20":
 		return "other"
 	}
 	return "proof"
